@@ -10,6 +10,7 @@ import (
 	"encoding/hex"
 	"math/big"
 	"sort"
+	"strconv"
 	"strings"
 	"sync"
 )
@@ -70,8 +71,23 @@ func newSecret(name string, raw []byte) secret {
 	for i, b := range b64Aligned(base64.URLEncoding, raw) {
 		add("base64url/"+string(rune('0'+i)), b)
 	}
+	// decimal big integers: what encoding/json (zap's reflection encoder) prints for the big.Int inside a
+	// kyber scalar, for the big-endian and the little-endian reading of the scalar's bytes
 	add("decimal", []byte(new(big.Int).SetBytes(raw).String()))
 	add("decimal-le", []byte(new(big.Int).SetBytes(rev(raw)).String()))
+	// the bytes as a list of numbers: JSON array / Go %v of a byte slice or array
+	for _, v := range []struct {
+		n string
+		b []byte
+	}{{"bytes", raw}, {"bytes-le", rev(raw)}} {
+		for _, sep := range []struct{ n, s string }{{"json-array", ","}, {"json-array-sp", ", "}, {"go-v", " "}} {
+			parts := make([]string, len(v.b))
+			for i, x := range v.b {
+				parts[i] = strconv.Itoa(int(x))
+			}
+			add(v.n+"/"+sep.n, []byte(strings.Join(parts, sep.s)))
+		}
+	}
 	if len(raw) >= 32 {
 		add("raw-prefix16", raw[:16])
 		add("raw-suffix16", raw[len(raw)-16:])
@@ -119,4 +135,3 @@ func (c *capture) kinds() []string {
 	sort.Strings(ks)
 	return ks
 }
-
